@@ -40,7 +40,24 @@ from sc3.base import clock as clk
 from sc3.base import functions as fn
 from sc3.base import stream as stm
 
-logging.disable(logging.CRITICAL)
+# the library's log records are CAPTURED (the property says a task's exception is logged), not printed
+LOGGED = []                # (logger name, level, exception type name or None, message)
+
+
+class _Capture(logging.Handler):
+    def emit(self, record):
+        try:
+            et = record.exc_info[0].__name__ if record.exc_info and record.exc_info[0] else None
+            LOGGED.append((record.name, record.levelname, et, record.getMessage()[:200]))
+        except Exception as e:
+            LOGGED.append((record.name, record.levelname, 'capture-error', repr(e)))
+
+
+_sc3log = logging.getLogger('sc3')
+_sc3log.addHandler(_Capture())
+_sc3log.setLevel(logging.DEBUG)
+_sc3log.propagate = False
+RAISED = []                # exception type names raised by task wake-ups (as the clocks see them)
 
 QUANT = 1024
 PROXIES = inp.get('proxies', True)
@@ -106,8 +123,17 @@ def owned():
     return main._main_lock._is_owned()
 
 
+_PLAIN_N = {}
+
+
 def task_id(task):
     k = id(task)
+    if k not in TASK_IDS and hasattr(getattr(task, 'func', None), '_c08_tid'):
+        # a fresh wrapper of a plain harness function: its own identity, derived from the function's id
+        base = task.func._c08_tid
+        _PLAIN_N[base] = _PLAIN_N.get(base, 0) + 1
+        TASK_IDS[k] = base * 1000 + _PLAIN_N[base]
+        KEEP.append(task)
     if k not in TASK_IDS:
         FOREIGN[0] -= 1
         TASK_IDS[k] = FOREIGN[0]
@@ -138,8 +164,9 @@ def wrap_awake(task, tid):
         except stm.StopStream:
             LOG.append((cid, 'awake_end', tid, ['other']))
             raise
-        except Exception:
-            LOG.append((cid, 'awake_end', tid, ['raise']))
+        except Exception as e:
+            RAISED.append(type(e).__name__)
+            LOG.append((cid, 'awake_end', tid, ['raise', type(e).__name__]))
             raise
         LOG.append((cid, 'awake_end', tid, res_code(r)))
         return r
@@ -387,6 +414,8 @@ class Run:
         self.not_run = 0
         self.responsive = None
         self.leak = []
+        self.logged = None
+        self.raised = None
         self.final_queue = None
         self.queue_consistent = None
         self.log1 = None
@@ -421,7 +450,26 @@ class Run:
                         'i1': 1, 'empty': '', 'list': []}[r[1]]
             if r[0] == 'base_exc':
                 raise KeyboardInterrupt
+            if r[0] == 'exc':
+                class Custom(Exception):
+                    pass
+
+                class StopIterationSub(StopIteration):
+                    pass
+
+                class StopStreamSub(stm.StopStream):
+                    pass
+                raise {'StopIteration': StopIteration, 'KeyError': KeyError, 'ValueError': ValueError,
+                       'ZeroDivisionError': ZeroDivisionError, 'AttributeError': AttributeError, 'Custom': Custom,
+                       'StopIterationSub': StopIterationSub, 'StopStreamSub': StopStreamSub,
+                       'AssertionError': AssertionError, 'OSError': OSError}[r[1]]('task %d' % tid)
             return None
+        if spec.get('plain'):
+            # a PLAIN function: the clocks wrap it in a new Function object at every sched call, so scheduling it
+            # again while a scheduling is pending is a separate scheduling (not a replacement)
+            body._c08_tid = tid
+            KEEP.append(body)
+            return body
         if spec.get('rscript') is not None:
             # a Routine whose body is a script: ['yield', n, d] | ['self_next'] | ['next', tid] (resume another routine
             # object from inside this one) | ['raise'] | ['stop'] ; a wake-up is recorded at the start of every segment
@@ -678,6 +726,8 @@ class Run:
                 time.sleep(0.03)
         c = self.clock
         self.cid = cid
+        del LOGGED[:]
+        del RAISED[:]
         if '"aux"' in json.dumps(sc):
             self.aux = clk.TempoClock(1.0)
         for tid, spec in sc['tasks'].items():
@@ -761,6 +811,9 @@ class Run:
             time.sleep(0.01)
         # global state a failing task may leak: the time-thread stack and the awake flag
         with main._main_lock:
+            # "an exception raised by one task is logged": one record per raising wake-up, with that exception
+            self.logged = sorted(str(x[2]) for x in LOGGED if 'scheduled on' in x[3] and x[1] == 'ERROR')
+            self.raised = sorted(RAISED) if PROXIES else None
             self.leak = []
             if main.current_tt is not main.main_tt:
                 self.leak.append('main.current_tt is %r (not the main time thread)' % (main.current_tt,))
@@ -787,6 +840,7 @@ class Run:
                 'alive': alive, 'window': window, 'problems': list(PROBLEMS),
                 'final_done_at': self.final_done_at, 'async_not_run': self.not_run,
                 'responsive': self.responsive, 'final_queue': self.final_queue, 'leak': self.leak,
+                'logged': self.logged, 'raised': self.raised,
                 'n_log1': len([e for e in self.log1 if e[0] == cid]), 'queue_consistent': self.queue_consistent}
 
     def client(self, i, ops):
